@@ -16,7 +16,8 @@
     the equal constant vector have the same expansion, hence every translated region sees the same input.  For Radau,
     which *writes* its tolerances, the transformation acts per component (`c13_radau_tolAdjust`; the translator refuses
     the region unless the code expands a scalar first — the defect fixed in 7ba12e0).
-  * duplication (`c13_copies_norm`): the mean under the square root of the RMS norm is the same for m stacked copies.
+  * duplication (`c13_copies_norm`): the mean under the square root of the RMS norm is the same for m stacked copies;
+    `c13_copies_radau_norms`: both of Radau's translated error norms take the same value on m copies as on one.
   Not proved: the whole-run statement (induction over the loop with a reflected oracle), hinit under the symmetries,
   Radau/BDF (not modelled), event-time mirroring.  Open finding: the automatic first step depends on the number of
   copies (Hairer's HINIT uses unnormalised sums), see known_findings.json c13-copies-autostep.
@@ -60,16 +61,18 @@ theorem c13_reflect_rk23 {n : Nat} (Kc : Nat → Vector K n) (y k1 : Vector K n)
     (Gen.Rk23.stages (f := openF fun j => vneg (Kc j)) (y := y) (h := -h) (k1 := vneg k1) (x := -x)).yt
       = (Gen.Rk23.stages (f := openF Kc) (y := y) (h := h) (k1 := k1) (x := x)).yt := rk23_stages_reflect Kc y k1 x h
 
-theorem c13_reflect_dopri5 {n : Nat} (Kc : Nat → Vector K n) (y k1 : Vector K n) (x h : K) :
-    (Gen.Dopri5.stages (f := openF fun j => vneg (Kc j)) (y := y) (h := -h) (k1 := vneg k1) (x := -x)).calls
-      = (Gen.Dopri5.stages (f := openF Kc) (y := y) (h := h) (k1 := k1) (x := x)).calls.map mirror ∧
-    (Gen.Dopri5.stages (f := openF fun j => vneg (Kc j)) (y := y) (h := -h) (k1 := vneg k1) (x := -x)).y1
-      = (Gen.Dopri5.stages (f := openF Kc) (y := y) (h := h) (k1 := k1) (x := x)).y1 := dopri5_stages_reflect Kc y k1 x h
+theorem c13_reflect_dopri5 {n : Nat} (Kc : Nat → Vector K n) (y k1 : Vector K n) (x h : K) (last : Bool) (xend : K)
+    (hl : last = true → xend = x + h) :
+    (Gen.Dopri5.stages (f := openF fun j => vneg (Kc j)) (y := y) (h := -h) (k1 := vneg k1) (x := -x) (last := last) (xend := -xend)).calls
+      = (Gen.Dopri5.stages (f := openF Kc) (y := y) (h := h) (k1 := k1) (x := x) (last := last) (xend := xend)).calls.map mirror ∧
+    (Gen.Dopri5.stages (f := openF fun j => vneg (Kc j)) (y := y) (h := -h) (k1 := vneg k1) (x := -x) (last := last) (xend := -xend)).y1
+      = (Gen.Dopri5.stages (f := openF Kc) (y := y) (h := h) (k1 := k1) (x := x) (last := last) (xend := xend)).y1 := dopri5_stages_reflect Kc y k1 x h last xend hl
 
-theorem c13_reflect_dop853 {n : Nat} (Kc : Nat → Vector K n) (y k1 : Vector K n) (x h : K) :
-    (Gen.Dop853.stages (f := openF fun j => vneg (Kc j)) (y := y) (h := -h) (k1 := vneg k1) (x := -x)).calls
-      = (Gen.Dop853.stages (f := openF Kc) (y := y) (h := h) (k1 := k1) (x := x)).calls.map mirror :=
-  dop853_stages_reflect Kc y k1 x h
+theorem c13_reflect_dop853 {n : Nat} (Kc : Nat → Vector K n) (y k1 : Vector K n) (x h : K) (last : Bool) (xend : K)
+    (hl : last = true → xend = x + h) :
+    (Gen.Dop853.stages (f := openF fun j => vneg (Kc j)) (y := y) (h := -h) (k1 := vneg k1) (x := -x) (last := last) (xend := -xend)).calls
+      = (Gen.Dop853.stages (f := openF Kc) (y := y) (h := h) (k1 := k1) (x := x) (last := last) (xend := xend)).calls.map mirror :=
+  dop853_stages_reflect Kc y k1 x h last xend hl
 
 /-- the automatic first step under time reflection: for the reflected problem (`f̃ = −f`, `x ↦ −x`, direction reversed)
     `hinit` returns the negated step and probes the mirrored point with the same state — every branch of the routine
@@ -105,16 +108,32 @@ theorem c13_reflect_norm {n : Nat} (atol rtol y y1 e : Vector K n) :
     Gen.Dopri5.errnorm (atol := atol) (rtol := rtol) (y := y) (y1 := y1) (k4 := vneg e)
       = Gen.Dopri5.errnorm (atol := atol) (rtol := rtol) (y := y) (y1 := y1) (k4 := e) := dopri5_errnorm_even atol rtol y y1 e
 
-theorem c13_scale_dopri5 {n : Nat} (c : K) (hc : 0 < c) (Kc : Nat → Vector K n) (atol rtol y k1 e : Vector K n) (x h : K) :
-    (Gen.Dopri5.stages (f := openF fun j => vsmul c (Kc j)) (y := vsmul c y) (h := h) (k1 := vsmul c k1) (x := x)).y1
-      = vsmul c (Gen.Dopri5.stages (f := openF Kc) (y := y) (h := h) (k1 := k1) (x := x)).y1 ∧
+theorem c13_scale_dopri5 {n : Nat} (c : K) (hc : 0 < c) (Kc : Nat → Vector K n) (atol rtol y k1 e : Vector K n) (x h : K)
+    (last : Bool) (xend : K) (hl : last = true → xend = x + h) :
+    (Gen.Dopri5.stages (f := openF fun j => vsmul c (Kc j)) (y := vsmul c y) (h := h) (k1 := vsmul c k1) (x := x) (last := last) (xend := xend)).y1
+      = vsmul c (Gen.Dopri5.stages (f := openF Kc) (y := y) (h := h) (k1 := k1) (x := x) (last := last) (xend := xend)).y1 ∧
     Gen.Dopri5.errnorm (atol := vsmul c atol) (rtol := rtol) (y := vsmul c y) (y1 := vsmul c k1) (k4 := vsmul c e)
       = Gen.Dopri5.errnorm (atol := atol) (rtol := rtol) (y := y) (y1 := k1) (k4 := e) :=
-  ⟨dopri5_stages_scale c Kc y k1 x h, dopri5_errnorm_scale c hc atol rtol y k1 e⟩
+  ⟨dopri5_stages_scale c Kc y k1 x h last xend hl, dopri5_errnorm_scale c hc atol rtol y k1 e⟩
 
 theorem c13_scale_rk23 {n : Nat} (c : K) (Kc : Nat → Vector K n) (y k1 : Vector K n) (x h : K) :
     (Gen.Rk23.stages (f := openF fun j => vsmul c (Kc j)) (y := vsmul c y) (h := h) (k1 := vsmul c k1) (x := x)).yt
       = vsmul c (Gen.Rk23.stages (f := openF Kc) (y := y) (h := h) (k1 := k1) (x := x)).yt := rk23_stages_scale c Kc y k1 x h
+
+/-- Radau's two error norms (the estimate and the refined estimate of a first / retried step), as translated from the
+    source, give the same value on `m` stacked copies as on one copy -/
+theorem c13_copies_radau_norms (m n : Nat) (hm : 0 < m) (hn : 0 < n) (cont scal : Vector K n) :
+    let dup : Vector K n → Vector K (m * n) := fun v => Vector.ofFn fun i => v[i.val % n]'(Nat.mod_lt _ hn)
+    Gen.Radau.errnorm (cont := dup cont) (scal := dup scal) = Gen.Radau.errnorm (cont := cont) (scal := scal) ∧
+    Gen.Radau.errnorm2 (cont := dup cont) (scal := dup scal) = Gen.Radau.errnorm2 (cont := cont) (scal := scal) := by
+  intro dup
+  have key : errSum (n := m * n) (fun i => (dup cont)[i]) (fun i => (dup scal)[i]) / ((m * n : Nat) : K)
+      = errSum (fun i => cont[i]) (fun i => scal[i]) / (n : K) := by
+    have := errSum_copies m n hm hn (fun i => cont[i]) (fun i => scal[i])
+    simpa [dup] using this
+  constructor
+  · rw [radau_errnorm_spec, radau_errnorm_spec, key]
+  · rw [radau_errnorm2_spec, radau_errnorm2_spec, key]
 
 theorem c13_copies_norm (m n : Nat) (hm : 0 < m) (hn : 0 < n) (e sk : Fin n → K) :
     errSum (n := m * n) (fun i => e ⟨i.val % n, Nat.mod_lt _ hn⟩) (fun i => sk ⟨i.val % n, Nat.mod_lt _ hn⟩) / ((m * n : Nat) : K)
